@@ -49,6 +49,10 @@ CHECKS = {
  'C03': dict(level='exploration', ref='3/C03', technique='execution-trace monitor: MARK(id) event sequences (fuel-bounded) and printed binding identities of chibicc-compiled programs vs gcc == clang',
              text='Random structured functions over all statement forms (switch on every integer type with negative, >32-bit and range labels, default in every position, fall-through, labels inside nested statements, break/continue in mixed loop/switch nestings, forward/backward/computed goto, short-circuit, ?:, comma, statement expressions) are instrumented with markers in sequenced positions; the recorded trace must equal the references. Scoping programs give every declaration a unique value or size across file/parameter/block/for-init scopes and the five name spaces; each use prints what it bound to.',
              note='gcc == clang trusted; only terminating, defined programs (per-loop counters + global fuel); depth <= 5'),
+
+ 'C09': dict(level='exploration', ref='3/C09', technique='differential monitor on preprocessor executions: chibicc -E (ASan/UBSan build) vs gcc -E == clang -E, outputs re-lexed by one pp-tokenizer and compared token by token; termination watchdog with re-run protocol',
+             text='Random macro definition sets and invocation texts over a small alphabet exercise object-like and function-like macros, recursion shapes, # and ## with all empty/non-empty operand combinations and chains, variadics (__VA_ARGS__, named, __VA_OPT__, `, ##`), nested and multi-line invocations, function-like names without parentheses, #undef/redefinition and __COUNTER__. A case counts only if gcc and clang both accept it and agree; then every token chibicc prints must match.',
+             note='constructs C11 leaves unspecified or undefined are not generated (function-like name at the end of a replacement list taking arguments from outside, directives inside arguments); ~25 % of generated cases are discarded because the references reject them (invalid pastes)'),
 }
 REASON_WIP = 'check not built yet in this session (planned, see DESIGN.md section 3); will be claimed once its monitor is silent on the unchanged tree'
 
